@@ -1470,6 +1470,62 @@ func c20FlagsFromMergedSet(w *World, r *Report) {
 			r.Ob(ri, fmt.Sprintf("%s|flag-read|%s", w.FnName(fn), flag), c.Pos(), ok, "the flag '"+flag+"' is read from "+set+", which does not contain flags inherited from the parent command: the lookup fails, its error is ignored and the option silently becomes empty")
 		}
 	}
+	// the other side: a flag that one package registers and another package (a sub-command) reads must
+	// be registered as a persistent flag - a local flag of the parent is unknown to the sub-command
+	type reg struct {
+		pkg, set string
+		pos     token.Pos
+	}
+	regs := map[string][]reg{}
+	reads := map[string][]string{}
+	for _, fn := range w.Funcs {
+		if fn.Blocks == nil || !(fnPkgPath(fn) == modPath+"/cmd" || strings.HasPrefix(fnPkgPath(fn), modPath+"/cmd/")) {
+			continue
+		}
+		for _, c := range callsIn(fn) {
+			nm := callName(c.Common())
+			if !strings.Contains(nm, "pflag.FlagSet.") {
+				continue
+			}
+			a := callArgs(c.Common())
+			if len(a) == 0 {
+				continue
+			}
+			flag, isC := constString(a[0])
+			if !isC {
+				continue
+			}
+			set := ""
+			if sc, _ := resultOfCall(callRecv(c.Common())); sc != nil {
+				set = callName(sc.Common())
+			}
+			if strings.Contains(nm, "pflag.FlagSet.Get") {
+				reads[flag] = append(reads[flag], fnPkgPath(fn))
+			} else {
+				regs[flag] = append(regs[flag], reg{fnPkgPath(fn), set, c.Pos()})
+			}
+		}
+	}
+	var names []string
+	for k := range regs {
+		names = append(names, k)
+	}
+	sort.Strings(names)
+	for _, flag := range names {
+		for _, rg := range regs[flag] {
+			foreign := false
+			for _, rp := range reads[flag] {
+				if rp != rg.pkg {
+					foreign = true
+				}
+			}
+			if !foreign {
+				continue
+			}
+			n++
+			r.Ob(ri, fmt.Sprintf("%s|flag-registered|%s", strings.TrimPrefix(rg.pkg, modPath+"/"), flag), rg.pos, strings.HasSuffix(rg.set, "Command.PersistentFlags"), "the flag '"+flag+"' is read by a sub-command of another package but registered with "+rg.set+": only persistent flags are inherited, so the sub-command's lookup fails silently and the option becomes empty")
+		}
+	}
 	if n == 0 {
 		r.Undecided(ri, "no flag is read in the cmd packages")
 	}
